@@ -21,13 +21,16 @@ REMOTE_FILE = remote.__file__
 STEP_CAP = 20000
 OPCODE_FUNCS = ('prepare', 'run', '_threaded_run', '_call', 'close')
 
-RULE = ('One evaluation = one simulated run: 1-3 caller threads with seeded scripts over prepare()/eval-call/think, '
+RULE = ('Seeded part: one evaluation = one simulated run: 1-3 caller threads with seeded scripts over prepare()/eval-call/think, '
         'then a quiescent epilogue (close(), wait for server exit, optional second session ended by close() or by the '
         'client vanishing at a seeded instant), under a seeded scheduler (random walk with p in {.02,.1,.3,.5}, '
         'access-biased random walk, PCT depth 1-3) at line or opcode granularity, with seeded child start-up delay '
         '(0-2 simulated seconds) and, in a separate weak-oracle configuration, launch failures. A run is non-trivial '
         'if at least one scheduling decision deviated from the default policy or a fault fired; distinct = distinct '
-        'event-log digests (every kernel step: thread, yield label, thread chosen, simulated time) among those.')
+        'event-log digests (every kernel step: thread, yield label, thread chosen, simulated time) among those. Systematic part: '
+        'for seven small workloads (1-3 threads over prepare()/first call) every schedule with at most 1 (all), 2 (quick: line '
+        'granularity all, opcode three workloads) or 3 (thorough, line granularity) deviations from the default policy is run - '
+        'complete within that bound.')
 ASSUMPTIONS = [
     'kernel and fakes (sim/kernel.py, sim/fakes.py) model threads, lock, clock, Popen, Listener/Client/Connection faithfully '
     '(message-atomic FIFO connection; validated against multiprocessing.Pipe by tools/stubfidelity.py)',
@@ -110,6 +113,84 @@ def gen_case(seed, i, mode):
     return case
 
 
+# ---- systematic exploration: every schedule with at most B deviations from the default policy ------------------
+# (a deviation is a pre-emption of the running thread or a non-default choice among the runnable threads when the
+# running thread blocks).  Complete for the listed small workloads within the bound; D3-like races need one deviation.
+
+PB_WORKLOADS = [
+    {'callers': [[['call', 'a0']]], 'main_prepare': True},
+    {'callers': [[['prepare'], ['call', 'a0']], [['call', 'b0']]], 'main_prepare': False},
+    {'callers': [[['call', 'a0']], [['call', 'b0']]], 'main_prepare': False},
+    {'callers': [[['prepare']], [['prepare'], ['call', 'b0']]], 'main_prepare': False},
+    {'callers': [[['call', 'a0']], [['prepare']]], 'main_prepare': False},
+    {'callers': [[['call', 'a0']], [['call', 'b0']], [['prepare']]], 'main_prepare': False},
+    {'callers': [[['prepare'], ['prepare']], [['call', 'b0'], ['call', 'b1']]], 'main_prepare': True},
+]
+
+
+def pb_base(w, gran, delay, session2):
+    wl = PB_WORKLOADS[w]
+    return {'callers': wl['callers'], 'main_prepare': wl['main_prepare'], 'gran': gran,
+            'launch_delays': [delay, 0.0, 0.0], 'session2': session2, 'vanish_at': 'after_send', 'faults': {},
+            'sched': {'kind': 'replay', 'deviations': []}}
+
+
+def pb_choices(case):
+    """Run `case` and return (result, list of (step, tid) alternatives met after its last deviation)."""
+    res = run_case(case, record_choices=True)
+    last = max([d[0] for d in case['sched']['deviations']] or [0])
+    alts = [(step, tid) for step, tids in res['choices'] if step > last for tid in tids]
+    return res, alts
+
+
+def plan_pb(tier, scale):
+    units = []
+    nw = len(PB_WORKLOADS)
+    for w in range(nw):
+        for gran in ('line', 'opcode'):
+            units.append({'kind': 'pb', 'w': w, 'gran': gran, 'delay': 0.35, 'session2': 'close', 'bound': 1})
+    # deeper bounds are sharded by the index of the first deviation
+    deep = [(w, 'line', 2, 4) for w in range(nw)] + [(w, 'opcode', 2, 16) for w in (0, 2, 4)]
+    if tier == 'thorough':
+        deep = [(w, 'line', 3, 32) for w in range(nw)] + [(w, 'opcode', 2, 16) for w in range(nw)]
+    for w, gran, bound, shards in deep:
+        for k in range(shards):
+            units.append({'kind': 'pb', 'w': w, 'gran': gran, 'delay': 0.0, 'session2': 'none', 'bound': bound,
+                          'shard': k, 'shards': shards})
+    return units
+
+
+def run_pb_unit(unit):
+    base = pb_base(unit['w'], unit['gran'], unit['delay'], unit['session2'])
+    stats = {'runs': 0, 'steps': 0}
+    vios = []
+    keys = set()
+    log = prng.Log()
+
+    def explore(devs, depth, top_filter=None):
+        case = dict(base, sched={'kind': 'replay', 'deviations': [list(d) for d in devs]})
+        if depth < unit['bound']:
+            res, alts = pb_choices(case)
+        else:
+            res, alts = run_case(case), []
+        stats['runs'] += 1
+        stats['steps'] += res['steps']
+        keys.add(int(res['digest'], 16) & 0xffffffffffff)
+        log.add(case['sched']['deviations'], res['digest'])
+        if res['violations'] and len(vios) < 3:
+            vios.append({'sig': res['violations'][0]['sig'], 'case': case, 'detail': res['violations'][0]['detail']})
+        if top_filter is not None:
+            stats['top'] = len(alts)
+            alts = alts[top_filter[0]::top_filter[1]]
+        for d in alts:
+            explore(devs + [d], depth + 1)
+    explore([], 0, (unit.get('shard', 0), unit.get('shards', 1)))
+    return {'evals': stats['runs'], 'keys': sorted(keys), 'faults': {}, 'probes': {}, 'violations': vios, 'samples': [],
+            'digest': log.digest(), 'steps': stats['steps'], 'sim_s': 0.0,
+            'extra': {'pb_schedules_bound_%d' % unit['bound']: stats['runs'],
+                      'max_pb_choice_points_on_default_schedule': stats.get('top', 0)}}
+
+
 def plan(tier, seed, scale=1.0):
     n = int((48000 if tier == 'quick' else 2400000) * scale)
     nfail = int((4000 if tier == 'quick' else 120000) * scale)
@@ -119,12 +200,22 @@ def plan(tier, seed, scale=1.0):
         units.append({'kind': 'runs', 'mode': 'main', 'seed': seed, 'first': i, 'count': min(per, n - i)})
     for i in range(0, nfail, per):
         units.append({'kind': 'runs', 'mode': 'launchfail', 'seed': seed, 'first': i, 'count': min(per, nfail - i)})
-    return units
+    pb = plan_pb(tier, scale)
+    # interleave the systematic units with the seeded ones
+    out = []
+    while units or pb:
+        if pb:
+            out.append(pb.pop(0))
+        out.extend(units[:3])
+        del units[:3]
+    return out
 
 
 def selftest_units(tier, seed):
     return ([{'kind': 'runs', 'mode': 'main', 'seed': seed, 'first': i, 'count': 1} for i in range(60)] +
-            [{'kind': 'runs', 'mode': 'launchfail', 'seed': seed, 'first': i, 'count': 1} for i in range(20)])
+            [{'kind': 'runs', 'mode': 'launchfail', 'seed': seed, 'first': i, 'count': 1} for i in range(20)] +
+            [{'kind': 'pb', 'w': 0, 'gran': 'line', 'delay': 0.0, 'session2': 'none', 'bound': 1},
+             {'kind': 'pb', 'w': 3, 'gran': 'opcode', 'delay': 0.35, 'session2': 'close', 'bound': 1}])
 
 
 # ---------------------------------------------------------------- one simulated run
@@ -433,8 +524,11 @@ class Run(object):
 IN_REQUEST = None
 
 
-def run_case(case, keep_events=0):
-    r = Run(case, keep_events).execute()
+def run_case(case, keep_events=0, record_choices=False):
+    run = Run(case, keep_events)
+    if record_choices:
+        run.kernel.choice_log = []
+    r = run.execute()
     k = r.kernel
     w = r.world
     faults = {}
@@ -455,7 +549,7 @@ def run_case(case, keep_events=0):
         'violations': r.vios, 'digest': getattr(k, 'final_digest', k.log.digest()), 'steps': k.step,
         'sim_s': k.now, 'deviations': list(k.deviations), 'nondefault': k.nondefault, 'faults': faults,
         'probes': probes, 'diverged': k.diverged, 'switches': k.switches,
-        'events': k.log.events, 'op_log': r.op_log, 'launches': len(w.procs),
+        'events': k.log.events, 'op_log': r.op_log, 'launches': len(w.procs), 'choices': k.choice_log or [],
     }
 
 
@@ -486,6 +580,8 @@ def run_unit(unit):
                 vios.append({'sig': res['violations'][0]['sig'], 'case': explicit, 'detail': res['violations'][0]['detail']})
         return {'evals': len(scheds), 'keys': [], 'faults': {}, 'probes': {}, 'violations': vios,
                 'digest': log.digest(), 'steps': steps, 'sim_s': 0.0}
+    if unit['kind'] == 'pb':
+        return run_pb_unit(unit)
     keys = set()
     faults = {}
     probes = {n: 0 for n in PROBE_NAMES}
